@@ -250,6 +250,10 @@ func (a *Allocator) addBufferAt(bufIdx, minSz int) {
 	// We need to allocate a new buffer.
 	// Make pageSize double of the last allocation.
 	pageSize := 2 * len(a.buffers[bufIdx-1])
+	if pageSize == 0 {
+		// The previous buffer was released by TrimTo, start over from the minimum size.
+		pageSize = 512
+	}
 	// Ensure pageSize is bigger than sz.
 	for pageSize < minSz {
 		pageSize *= 2
